@@ -16,7 +16,9 @@ pub fn run(ctx: &Ctx) -> i32 {
          no_std+compact); in the four `alloc` configurations the same inputs must show delta > 0 whenever the \
          big-integer path ran - that positive control is checked on every case, so a dead counter cannot pass. Each \
          input is parsed twice in the no-alloc configurations: through slice iterators and through filter iterators \
-         over pre-built '_'-separated buffers (inexact size hints). Inputs: \
+         over pre-built '_'-separated buffers (inexact size hints). The whole check runs in two builds of the harness - \
+         release (opt-level 3) and dbgchk (opt-level 1, debug assertions on) - because the optimiser may elide an \
+         allocation that an unoptimised build of the same source performs. Inputs: \
          the midpoint / long-tail / closest-approach families weighted to the big-integer path (negative and positive \
          digit comparison, 5-powers >= 135 so large_mul/long_mul temporaries exist), plus shaped random and range \
          ends, f32 and f64. Non-trivial: the real code took the big-integer path (default or compact \
